@@ -95,7 +95,7 @@ PROPS = {
         "chain": [chain("fees", 24, 25, 300, 40), chain("ent", 16, 25, 200, 40), chain("all", 16, 25, 200, 40)],
         "corpus": ["witness", "regress", "known"],
         "relevant": rel_kinds(ENT_TAGS, lambda k: is_ent(k) or is_reg(k) or k == "bank.send"),
-        "level_text": "Proof: c04_books_balance (in every state of every run escrow balance = total locked = sum of locked entries, total spent = sum of spent entries, all non-negative amounts of the enterprise denomination), c04_locked_plus_spent_eq_purchased (per account), c04_escrow_moves_only_by_completion_or_unlock (every elementary step of every message kind), c04_send_to_escrow_rejected, c04_escrow_blocked_and_minters (regenerated permission table); the saturating branches of decrementLockedUnd are proved unreachable.",
+        "level_text": "Proof: c04_books_balance (in every state of every run escrow balance = total locked = sum of locked entries, total spent = sum of spent entries, all non-negative amounts of the enterprise denomination), c04_locked_plus_spent_eq_purchased (per account), c04_escrow_moves_only_by_completion_or_unlock (every elementary step of every message kind), c04_send_to_escrow_rejected, c04_escrow_blocked_and_minters (regenerated permission table); the saturating branches of decrementLockedUnd are proved unreachable. c04_whitelist_change_leaves_the_books (whitelist administration touches the whitelist and nothing else).",
         "level_note": ENT_NOTE,
         "assumptions": ["BooksQ: BankSane (LockedCoins never negative: SDK contract), EntQ, and governance has not changed the enterprise denomination (known finding C14/denom-change)",
                         "genesis: bank-lite well-formed, no vesting module accounts, empty enterprise escrow"],
@@ -128,7 +128,7 @@ PROPS = {
         "chain": [chain("all", 24, 25, 300, 40), chain("ent", 16, 25, 200, 40), chain("gov", 16, 25, 200, 40), chain("quorum", 8, 25, 100, 40), chain("stream", 8, 20, 100, 30), chain("authz", 8, 20, 100, 30)],
         "corpus": ["witness", "regress", "known"],
         "relevant": rel_all,
-        "level_text": "Proof: c14_begin_block_never_panics (in every state of every run whose queued orders leave room below 2^255 the enterprise BeginBlocker - completion pass then tally - returns without a panic at any block time: every explicit panic of blocker.go and every panicking primitive reachable from it is dead under the invariants), c14_tally_never_panics, c14_end_block_and_commit_total, c14_failed_tx_changes_nothing_and_multimsg_atomic (after DeliverTx the state is the state before, or the ante state - differing only by fee balances and the locked/spent books - with none of the messages' effects, or the state after all messages), c14_runMsgs_fails_if_any_message_fails. The two history assumptions of the totality theorem are the two known findings (enterprise denomination changed by governance while an order is pending; amounts summing beyond 2^255), each replayed on the real app every run.",
+        "level_text": "Proof: c14_begin_block_never_panics (in every state of every run whose queued orders leave room below 2^255 the enterprise BeginBlocker - completion pass then tally - returns without a panic at any block time: every explicit panic of blocker.go and every panicking primitive reachable from it is dead under the invariants), c14_tally_never_panics, c14_end_block_and_commit_total, c14_failed_tx_changes_nothing_and_multimsg_atomic (after DeliverTx the state is the state before, or the ante state - differing only by fee balances and the locked/spent books - with none of the messages' effects, or the state after all messages), c14_runMsgs_fails_if_any_message_fails. The two history assumptions of the totality theorem are the two known findings (enterprise denomination changed by governance while an order is pending; amounts summing beyond 2^255), each replayed on the real app every run. c14_failed_proposals_leave_no_trace / c14_end_block_of_failed_proposals_is_identity (the state after an EndBlock is the fold over the proposals that passed; failed ones contribute nothing).",
         "level_note": ENT_NOTE + " Panics are values of the model (Except.error (.panic ..)); BaseApp.runTx's per-transaction recovery and cache-wrapped ante/message execution are modelled by deliverTx and compared with the real app on every generated transaction (outcome class ok/err/panic is a hard comparison). SDK-module block hooks are outside the model; the harness recovers around every ABCI call and reports a halt as 'B panic' / 'E panic'.",
         "assumptions": ["BooksQ as in C04 (includes: enterprise denomination unchanged - known finding)", "BlockRoom: balances, supply and total locked plus the queued order amounts stay below 2^255 (known finding for amounts beyond)",
                         "enterprise denomination is a valid denom (C16)"],
@@ -235,7 +235,7 @@ PROPS = {
         "assumptions": ["input is a plain decimal numeral digits[.digits]; nund inputs are integers"],
     },
     "C18": {
-        "level_text": "Proof: key builders and the stream key parser are modelled over byte lists; injectivity, section/scan disjointness, big-endian order = numeric order and the stream-key round trip are proved for all 64-bit ids and all address lengths 1..255; section prefixes are regenerated from keys.go on every run; the real builders/parsers are compared with the model on boundary-exhaustive and random inputs.",
+        "level_text": "Proof: key builders and the stream key parser are modelled over byte lists; injectivity, section/scan disjointness, big-endian order = numeric order and the stream-key round trip are proved for all 64-bit ids and all address lengths 1..255; section prefixes are regenerated from keys.go on every run; the real builders/parsers are compared with the model on boundary-exhaustive and random inputs. Handler level (the same statement for what the keepers write): c18_decision_writes_one_order, c18_tally_reads_only_the_order_itself, c18_completion_writes_one_order_and_one_account, c18_unlock_writes_one_account, c18_purchase_and_registration_write_one_entry, c18_record_writes_one_registration (including the pruning a record triggers), c18_stream_message_writes_one_stream (all five stream messages; every other pair, the reversed pair included), c18_modules_do_not_write_each_other (no message of one module changes another module's section).",
         "level_note": "Theorems are about the model of the codecs; the tie is differential (vpure key/parse) plus regenerated prefixes, and — for the stores behind the codecs — generated histories on the real app in which every order, registration, record and stream listed by the keepers is compared with the model and with the point read of the same entity (a listing that aliases one entity with another prints a `D <module>.alias` line). Store iteration order (ascending bytes) is the IAVL/cachekv contract and is assumed.",
         "pure": [{"kinds": ["key", "parse"], Q: 300, T: 20000}],
         # the stores behind the codecs: every listed order, registration and stream equals its point read, in id order
